@@ -416,6 +416,129 @@ def kernel_tables(params, kfunc):
             "resvar": resvar or "<none>"}
 
 
+def pool_kernel_tables(pyx, kname):
+    """round 5 — the Cython kernel behind the multiprocessing split (`for j in targets:` with
+    work arrays allocated once before the loop): for every array local whether the target loop
+    leaves it alone (`readonly`), re-initialises it before the first use in every iteration
+    (`reset`: `X.fill(c)` or `for l in range(N): X[l] = <expr without work arrays>` as the first
+    top-level statement mentioning it), only adds to it at top level (`acc`), or none of these
+    (`carried`); parameters written inside the loop; scalar locals read in an iteration before
+    being assigned in it; loop header, accumulator initialisation and return statement."""
+    params, kf = pyx_kernel_as_python(pyx, kname)
+    none = {"params": params, "loop": "<no loop>", "arrays": [("<unknown>", "carried")], "pwritten": [],
+            "carried": ["<unknown>"], "acc_init": "<none>", "ret": "<none>"}
+    if kf is None or not params:
+        return none
+    arrays = {}
+    for st in kf.body:
+        if isinstance(st, ast.Assign) and isinstance(st.targets[0], ast.Name) \
+                and isinstance(st.value, ast.Call) and norm(st.value.func) in ("np.zeros", "np.ones", "np.empty"):
+            arrays[st.targets[0].id] = st.value
+    outer = next((st for st in kf.body if isinstance(st, ast.For) and norm(st.iter) == params[-1]), None)
+    if outer is None:
+        return none
+
+    def names(node):
+        return {x.id for x in ast.walk(node) if isinstance(x, ast.Name)}
+
+    def base(t):
+        while isinstance(t, ast.Subscript):
+            t = t.value
+        return t.id if isinstance(t, ast.Name) else None
+
+    def writes(node):
+        w = set()
+        for n in ast.walk(node):
+            if isinstance(n, ast.Assign):
+                for t in n.targets:
+                    for e in (t.elts if isinstance(t, ast.Tuple) else [t]):
+                        w.add(base(e))
+            elif isinstance(n, ast.AugAssign):
+                w.add(base(n.target))
+            elif isinstance(n, ast.Call) and isinstance(n.func, ast.Attribute) \
+                    and isinstance(n.func.value, ast.Name) and n.func.attr in ("fill", "sort", "resize", "put"):
+                w.add(n.func.value.id)
+        w.discard(None)
+        return w
+    written = writes(outer)
+    scalars = {x for x in written if x not in arrays and x not in params}
+    work = {x for x in arrays if x in written}
+
+    def classify(X):
+        if X not in written:
+            return "readonly"
+        mentions = [st for st in outer.body if X in names(st)]
+        # accumulator: only `X += <expr without X>` at the top level of the loop body
+        if all(isinstance(st, ast.AugAssign) and isinstance(st.target, ast.Name) and st.target.id == X
+               and isinstance(st.op, ast.Add) and X not in names(st.value) for st in mentions):
+            return "acc"
+        st = mentions[0]
+        if isinstance(st, ast.Expr) and isinstance(st.value, ast.Call) \
+                and norm(st.value.func) == X + ".fill" and len(st.value.args) == 1 \
+                and not (names(st.value.args[0]) & (scalars | work)):
+            return "reset"
+        size_arg = norm(arrays[X].args[0]) if arrays[X].args else "?"
+        if isinstance(st, ast.For) and isinstance(st.target, ast.Name) \
+                and norm(st.iter) == f"range({size_arg})" and len(st.body) == 1 \
+                and isinstance(st.body[0], ast.Assign) \
+                and any(norm(t) == f"{X}[{st.target.id}]" for t in st.body[0].targets) \
+                and not (names(st.body[0].value) & (work | (scalars - {st.target.id}))):
+            return "reset"
+        return "carried"
+    arr = [(X, classify(X)) for X in arrays]
+    pwritten = sorted(x for x in written if x in params)
+    # scalar locals: read before assigned within one iteration (def-before-use, `while` included)
+    carried = set()
+    loopvars = set()
+    for n in ast.walk(outer):
+        if isinstance(n, ast.For):
+            loopvars |= names(n.target)
+
+    def reads(node, defined):
+        for x in ast.walk(node):
+            if isinstance(x, ast.Name) and isinstance(x.ctx, ast.Load) and x.id in (scalars | loopvars) \
+                    and x.id not in defined:
+                carried.add(x.id)
+
+    def flow(stmts, defined):
+        defined = set(defined)
+        for st in stmts:
+            if isinstance(st, ast.Assign):
+                reads(st.value, defined)
+                for t in st.targets:
+                    for e in (t.elts if isinstance(t, ast.Tuple) else [t]):
+                        if isinstance(e, ast.Name):
+                            defined.add(e.id)
+                        else:
+                            reads(e, defined)
+            elif isinstance(st, ast.AugAssign):
+                reads(st.value, defined)
+                if isinstance(st.target, ast.Name):
+                    if st.target.id not in defined and st.target.id in scalars:
+                        carried.add(st.target.id)
+                else:
+                    reads(st.target, defined)
+            elif isinstance(st, ast.If):
+                reads(st.test, defined)
+                defined = flow(st.body, defined) & flow(st.orelse, defined)
+            elif isinstance(st, ast.For):
+                reads(st.iter, defined)
+                flow(st.body, defined | names(st.target))
+            elif isinstance(st, ast.While):
+                reads(st.test, defined)
+                flow(st.body, defined)
+            else:
+                reads(st, defined)
+        return defined
+    flow(outer.body, names(outer.target))
+    rets = [norm(n) for n in ast.walk(kf) if isinstance(n, ast.Return)]
+    accs = [X for X, c in arr if c == "acc"]
+    acc_init = norm(arrays[accs[0]]) if len(accs) == 1 else "<none>"
+    return {"params": params, "loop": "for " + norm(outer.target) + " in " + norm(outer.iter),
+            "arrays": arr, "pwritten": pwritten, "carried": sorted(carried), "acc_init": acc_init,
+            "ret": "; ".join(rets) if rets else "<none>"}
+
+
 def triples(alts):
     return "[" + ", ".join("(" + ", ".join(lit(x) for x in t) + ")" for t in alts) + "]"
 
@@ -515,6 +638,26 @@ def main():
     out.append(f"def pool_serial : String := {lit(serial_call)}")
     out.append(f"def pool_worker : String := {lit(pool_ctor)}")
     out.append(f"def pool_conditions : List String := [{', '.join(lit(c) for c in pool_conds)}]")
+    # round 5: the kernel behind `worker` (state of its work arrays across the target loop)
+    pyx = open(os.path.join(REPO, "src/pyunicorn/core/_ext/numerics.pyx")).read()
+    kname = "<none>"
+    bound = 0
+    for n in ast.walk(f):
+        if isinstance(n, ast.Assign) and ast.unparse(n.targets[0]) == "worker" \
+                and isinstance(n.value, ast.Call) and ast.unparse(n.value.func) == "partial" and n.value.args:
+            kname = ast.unparse(n.value.args[0])
+            bound = len(n.value.args) - 1
+    pk = pool_kernel_tables(pyx, kname)
+    out.append(f"def pool_kernel_name : String := {lit(kname)}")
+    out.append(f"def pool_kernel_bound_args : Nat := {bound}")
+    out.append(f"def pool_kernel_params : List String := [{', '.join(lit(x) for x in pk['params'])}]")
+    out.append(f"def pool_kernel_loop : String := {lit(pk['loop'])}")
+    out.append("def pool_kernel_arrays : List (String × String) := [" +
+               ", ".join(f"({lit(a)}, {lit(c)})" for a, c in pk["arrays"]) + "]")
+    out.append(f"def pool_kernel_params_written : List String := [{', '.join(lit(x) for x in pk['pwritten'])}]")
+    out.append(f"def pool_kernel_scalar_carried : List String := [{', '.join(lit(x) for x in pk['carried'])}]")
+    out.append(f"def pool_kernel_acc_init : String := {lit(pk['acc_init'])}")
+    out.append(f"def pool_kernel_return : String := {lit(pk['ret'])}")
     out.append("")
     # ---- protocol statements of utils/mpi.py ----------------------------------------------
     msrc = open(os.path.join(REPO, "src/pyunicorn/utils/mpi.py")).read()
